@@ -709,10 +709,19 @@ impl Context {
         code: &'a str,
         code_source: CodeSource,
     ) -> Result<(Vec<typed_ast::Statement<'a>>, InterpreterResult)> {
-        let statements = self
-            .resolver
-            .resolve(code, code_source.clone())
-            .map_err(NumbatError::ResolverError)?;
+        // Remember which modules have been imported so far. If this input fails at any
+        // stage, none of the modules it imported has been (completely) evaluated, so they
+        // must not be considered as imported afterwards. Otherwise a later `use` of the
+        // same module would silently do nothing.
+        let imported_modules_old = self.resolver.imported_modules.clone();
+
+        let statements = match self.resolver.resolve(code, code_source.clone()) {
+            Ok(statements) => statements,
+            Err(err) => {
+                self.resolver.imported_modules = imported_modules_old;
+                return Err(Box::new(NumbatError::ResolverError(err)));
+            }
+        };
 
         let prefix_transformer_old = self.prefix_transformer.clone();
 
@@ -732,6 +741,7 @@ impl Context {
             //     >>> fn f(h_) = 1     # <-- here we want to use 'f' again
             //
             self.prefix_transformer = prefix_transformer_old.clone();
+            self.resolver.imported_modules = imported_modules_old.clone();
         }
 
         let transformed_statements = result?;
@@ -756,6 +766,7 @@ impl Context {
             //
             self.prefix_transformer = prefix_transformer_old.clone();
             self.typechecker = typechecker_old.clone();
+            self.resolver.imported_modules = imported_modules_old.clone();
 
             if self.load_currency_module_on_demand
                 && let Err(NumbatError::TypeCheckError(TypeCheckError::UnknownIdentifier(
@@ -830,6 +841,7 @@ impl Context {
             self.prefix_transformer = prefix_transformer_old;
             self.typechecker = typechecker_old;
             self.interpreter = interpreter_old;
+            self.resolver.imported_modules = imported_modules_old;
         }
 
         let result = result.map_err(|err| NumbatError::RuntimeError(*err))?;
